@@ -80,6 +80,26 @@ var fixedPlans = map[string]plan{
 		{Method: "GET_PARAMETER", PathSym: "live"},
 		{Method: "PLAY", PathSym: "live"},
 	}},
+	// WSP had the same defect as service/rtsp: a refused SETUP(mode=record) poisoned later SETUPs
+	"wsp-refused-setup-keeps-mode": {Transport: "wsp", WSPathSym: "live", End: "close", Steps: []step{
+		{Method: "DESCRIBE", PathSym: "live"},
+		{Method: "SETUP", PathSym: "live", Track: "video", Trans: "tcp", Mode: "record", ModeText: "mode=record"},
+		{Method: "SETUP", PathSym: "live", Track: "video", Trans: "tcp"},
+		{Method: "PLAY", PathSym: "live"},
+	}},
+	"legal-play-wsp": {Transport: "wsp", WSPathSym: "live", WSPData: true, End: "close", CheckFrames: true, Steps: []step{
+		{Method: "OPTIONS", PathSym: "live"},
+		{Method: "DESCRIBE", PathSym: "live"},
+		{Method: "ANNOUNCE", PathSym: "pub", SDP: "valid"},
+		{Method: "SETUP", PathSym: "live", Track: "video", Trans: "tcp"},
+		{Method: "SETUP", PathSym: "live", Track: "audio", Trans: "tcp"},
+		{Method: "RECORD", PathSym: "live"},
+		{Method: "PLAY", PathSym: "live"},
+		{Method: "PLAY", PathSym: "live"},
+		{Method: "PAUSE", PathSym: "live"},
+		{Method: "PLAY", PathSym: "live"},
+		{Method: "TEARDOWN", PathSym: "live"},
+	}},
 	"legal-play-udp-then-teardown": {Transport: "tcp", End: "close", Steps: []step{
 		{Method: "DESCRIBE", PathSym: "live"},
 		{Method: "SETUP", PathSym: "live", Track: "video", Trans: "udp"},
